@@ -36,7 +36,7 @@ BROKEN = "fn dsp(){\n  (1 + , 2\n}\n"
 # the invariants on all of them; `replay` histories are driven through the real loop (see live_layer)
 LIVE_BOUNDS = {
     "quick": {"NTicks": 4, "MaxEdits": 2, "MaxVoices": 3, "InitVoices": 2, "EditAt": "{0, 1, 2}", "Live": "TRUE", "Frames": "{1, 2}",
-              "ShapeSet": '{"counter", "lagv", "dlv", "nestv", "paccv"}', "replay": 700},
+              "ShapeSet": '{"counter", "lagv", "dlv", "nestv", "paccv"}', "replay": 400},
     "thorough": {"NTicks": 5, "MaxEdits": 2, "MaxVoices": 3, "InitVoices": 2, "EditAt": "{0, 1, 2, 3}", "Live": "TRUE",
                  "Frames": "{1, 2}", "ShapeSet": '{"counter", "lagv", "dlv", "nestv", "paccv"}', "replay": 6000},
 }
@@ -122,32 +122,30 @@ def live_layer(chk, tier):
             f.write(f"  {k} = {v}\n")
         f.write("INVARIANT CellsWellFormed\nINVARIANT QueueEndsWithFile\nINVARIANT NothingWaitingMeansFileRuns\n"
                 "INVARIANT Emit\nCHECK_DEADLOCK FALSE\n")
-    r = vlib.run_tlc("EditSwap", "EditSwap_live_run", workers=12, timeout=3000)
+    r = vlib.run_tlc("EditSwap", "EditSwap_live_run", workers=12, timeout=3000, raw_tags=("REPLAY",))
     chk.tlc(r, "EditSwap(Live)")
     if r.violation:
         chk.violation(f"model (live loop): {r.violation}", {"tlc": vlib.tlc_error_trace(r.stdout)}, key="model-live")
-    reps = sorted(r.tagged["REPLAY"], key=lambda x: json.dumps(x, sort_keys=True))
+    raw = sorted(r.tagged["REPLAY"])
     # structural cover: one history per class (sequence of operations, callback sizes and voice layouts by name),
-    # then a seeded fill; the shapes of the voices vary inside a class
+    # then a seeded fill; the shapes of the voices vary inside a class.  The class is read off the undecoded line
+    # (operations, callback sizes and let-bound voice names in order of appearance); only the chosen lines are decoded.
+    import re
+    sigre = re.compile(r'op\\":\\"(\w+)|frames\\":(\d+)|x\\":\\"(v\d+)')
+    hk = lambda x: hashlib.sha256((str(vlib.seed()) + x).encode()).hexdigest()
     classes, rest = {}, []
-    for rep in reps:
-        sig = []
-        for h in rep["hist"]:
-            if h["op"] == "cb":
-                sig.append(("cb", h["frames"]))
-            elif h["op"] == "broken":
-                sig.append(("broken",))
-            else:
-                sig.append((h["op"], tuple(n for n, _ in voices_of(h["prog"]))))
-        sig = tuple(sig)
+    for line in raw:
+        sig = tuple(sigre.findall(line))
         if sig in classes:
-            rest.append(rep)
+            rest.append(line)
         else:
-            classes[sig] = rep
-    hk = lambda x: hashlib.sha256((str(vlib.seed()) + json.dumps(x, sort_keys=True)).encode()).hexdigest()
+            classes[sig] = line
     chosen = sorted(classes.values(), key=hk)
-    rest.sort(key=lambda x: hashlib.sha256((str(vlib.seed()) + json.dumps(x, sort_keys=True)).encode()).hexdigest())
-    chosen = (chosen + rest)[:max(nrep, 0)] if len(chosen) < nrep else chosen[:nrep]
+    if len(chosen) < nrep:
+        rest.sort(key=hk)
+        chosen = chosen + rest[:nrep - len(chosen)]
+    chosen = [vlib.decode_tagged(x) for x in chosen[:nrep]]
+    reps = raw
     pinned = []
     d = os.path.join(vlib.VERIF, "findings", "C07")
     if os.path.isdir(d):
